@@ -7,7 +7,8 @@
 3. Validation of the translator's table (the dynamic half of the tie): twin runs of the training
    routines in two fresh processes with equal seeds, identically constructed networks / environments, but
    different ambient conditions (PYTHONHASHSEED, global numpy / random state, shifted time.time, XLA
-   intra-op thread count, and - variant B - an earlier call of the same routine in the same process); digests of parameters, buffers, counters and logged statistics (minus the
+   intra-op thread count, content of uninitialised np.empty memory, and - variant B - an earlier call of the same routine in
+   the same process); digests of parameters, buffers, counters and logged statistics (minus the
    time field) must be bit-identical; a third run with another training seed must differ in the parameters.
 """
 import concurrent.futures as cf
@@ -26,6 +27,8 @@ ROUTINES = [
 ]
 # routines whose configuration must show logged loss records (updates really happened)
 NO_LOSS_LOG = {"train_q_learning", "train_sarsa", "train_double_q_learning", "train_monte_carlo", "train_dynaq", "train_cmaes"}
+# the only users of MultiTaskReplayBuffer / the task selectors (containers of objects): always part of the quick tier
+ALWAYS = ["train_smt", "train_active_mt"]
 XLA1 = "--xla_cpu_multi_thread_eigen=false intra_op_parallelism_threads=1"
 XLA2 = "--xla_cpu_multi_thread_eigen=false intra_op_parallelism_threads=2"
 #            name  PYTHONHASHSEED ambient-id XLA_FLAGS
@@ -119,9 +122,10 @@ def main(chk):
             if any(q.split(".")[-1] == r for q in reach_roots):
                 suspects.append(r)
     rot = [r for i, r in enumerate(ROUTINES) if (i + chk.seed) % 3 == 0]
+    rot += [r for r in ALWAYS if r not in rot]
     if chk.tier == "quick":
         full = list(dict.fromkeys(suspects + rot))  # twin + third run
-        twins_only = [r for r in ROUTINES if r not in full] if (paths or g.get("abort")) else []
+        twins_only = [r for r in ROUTINES if r not in full]      # every routine has its twin pair on every run; the third run rotates
     else:
         full, twins_only = list(ROUTINES), []
     seed = 1000 * (chk.seed % 1000) + 17
@@ -213,7 +217,7 @@ def main(chk):
     return chk.finish(
         rule=(f"graph: every .py under rl_blox translated ({st.get('functions', '?')} functions, {st.get('roots', '?')} entry points), "
               f"ambient_free decided by vm_compute on the regenerated graph; twin runs: "
-              f"{'every routine' if chk.tier != 'quick' else 'seed-rotated third of the 24 routines (index+seed divisible by 3)'}"
+              f"{'every routine' if chk.tier != 'quick' else 'every routine as a twin pair; the third run for a seed-rotated third of the 24 routines plus the two multi-task routines'}"
               f" x (2 ambient conditions, one of them after an earlier in-process call of the same routine, + 1 other training seed), small "
               f"configurations with updates; distinct = routines compared"),
         assumptions=[
